@@ -19,15 +19,19 @@ TOOLS = os.path.expanduser("~/.rustup/toolchains/nightly-x86_64-unknown-linux-gn
 
 
 def main():
-    pids = sys.argv[1:] or ["C%02d" % i for i in range(1, 21)]
+    report_only = "--report-only" in sys.argv
+    pids = [a for a in sys.argv[1:] if not a.startswith("--")] or ["C%02d" % i for i in range(1, 21)]
     os.makedirs(COV, exist_ok=True)
+    if report_only:
+        pids = []
     for f in glob.glob(os.path.join(COV, "*.profraw")):
         os.remove(f)
     env = dict(os.environ, CARGO_NET_OFFLINE="true", CARGO_TARGET_DIR=TARGET,
                RUSTFLAGS="--cfg gamedig_verif -C instrument-coverage")
-    r = subprocess.run(["cargo", "+nightly", "build", "--offline"], cwd=os.path.join(VERIF, "harness"), env=env)
-    if r.returncode != 0:
-        sys.exit("instrumented build failed")
+    if not report_only:
+        r = subprocess.run(["cargo", "+nightly", "build", "--offline"], cwd=os.path.join(VERIF, "harness"), env=env)
+        if r.returncode != 0:
+            sys.exit("instrumented build failed")
     binary = os.path.join(TARGET, "debug", "gdharness")
     env2 = dict(os.environ, VERIF_HARNESS_BIN=binary, LLVM_PROFILE_FILE=os.path.join(COV, "gd-%p-%m.profraw"))
     for pid in pids:
@@ -38,7 +42,8 @@ def main():
     subprocess.run(["git", "checkout", "--", "evidence"], cwd=VERIF)
     raws = glob.glob(os.path.join(COV, "*.profraw"))
     prof = os.path.join(COV, "merged.profdata")
-    subprocess.run([os.path.join(TOOLS, "llvm-profdata"), "merge", "-sparse", "-o", prof] + raws, check=True)
+    if not report_only:
+        subprocess.run([os.path.join(TOOLS, "llvm-profdata"), "merge", "-sparse", "-o", prof] + raws, check=True)
     src = os.path.join(REPO, "crates", "lib", "src")
     ignore = r"(/\.cargo/|/rustc/|verif_hook\.rs|/capture/|/harness/src/|protocols/epic|games/minetest|minetest_master_server|/id-tests/)"
     rep = subprocess.run([os.path.join(TOOLS, "llvm-cov"), "report", binary, "-instr-profile=" + prof,
@@ -49,7 +54,7 @@ def main():
     unc, cur = {}, None
     for l in exp.split("\n"):
         if l.startswith("SF:"):
-            cur = l[3:]
+            cur = os.path.realpath(l[3:])
         elif l.startswith("DA:") and cur and cur.startswith(src):
             n, c = l[3:].split(",")[:2]
             if c == "0":
